@@ -33,7 +33,7 @@ from simkit.scriptprog import ProgramRunner, gen_program  # noqa: E402
 from simkit.world import InvalidScenario, repo_exception_sig, result  # noqa: E402
 
 PROPERTY = "C04"
-RUNS = {"quick": 6_000, "thorough": 600_000}
+RUNS = {"quick": 6_000, "thorough": 4_000_000}
 WALL = {"quick": 50, "thorough": 1500}
 BATCH = {"quick": 100, "thorough": 1000}
 RULE = (
